@@ -86,6 +86,13 @@ def job(args):
             nfac = sum(1 for f_, e in expr.fac if any(isinstance(atom_key(a), tuple) and atom_key(a)[0] in coef_head for a in f_.atoms()))
             if nfac != 1 and bad is None:
                 bad = f"{nfac} factors depend on the coefficient field"
+            if bad is None and construct.endswith('/u_upwind'):
+                # a separate direction field was supplied: the sign split must not look at the coefficient field itself,
+                # else the term is not additive in it (M(u1+u2; d) != M(u1; d) + M(u2; d))
+                for a in expr.atoms():
+                    k = atom_key(a)
+                    if isinstance(k, tuple) and k and k[0] == 'ind' and any(isinstance(atom_key(b), tuple) and atom_key(b)[0] in coef_head for b in k[2].atoms()):
+                        bad = f"the sign test {fmt_rat(Rat.atom(k), 3)} depends on the coefficient field although an upwind-direction field was given"
             ob('H3', construct, bad is None, f"{what}: " + (bad or 'degree one in the coefficient field'), loc)
 
     cells = F.cell_classes(w, 'quick', mode='axes')
